@@ -7,7 +7,7 @@ const ruleW2 = "one evaluation = one seeded simulated run of the galaxy daemon o
 	"a kubelet model issuing ADD / DEL / DEL retries / duplicate DELs for successive sandboxes, daemon start with the real start-time synchronisation, seeded faults. "
 
 var ruleC12 = ruleW2 + "C12: requests of several containers run concurrently (seeded interleaving at every lock / file / API / plugin call); plugin ADD/DEL failures are scripted per " +
-	"(container, interface, attempt); fs.err, api.err and daemon crash/restart are injected in part of the runs (those requests are then judged by the per-invocation clauses only). " +
+	"(container, interface, attempt); pods have 1-3 containers (the ENI request on any of them) and 1-2 common args that every network must receive; network state files get damaged (truncated / garbage, by short writes and crashes too); fs.err, api.err and daemon crash/restart are injected in part of the runs (those requests are then judged by the per-invocation clauses only). " +
 	"Every run without such unscripted faults is followed by a solo re-execution of each container's request sequence in a fresh world (isolation by non-interference). " +
 	"A run is non-trivial if at least one ADD request completed AND (a scheduling decision with >=2 enabled tasks occurred OR a fault fired OR a pod with >=2 networks was added). " +
 	"distinct_nontrivial = distinct sha256 of (task kind, parked-on kind) at contested decisions plus the sequence of fired faults."
@@ -42,7 +42,7 @@ var assumeDaemon = map[string]string{
 const ruleC13 = "one evaluation = one generated floatingip configuration (1-4 pools, masks /16../30, gateway at either end of the subnet, VLAN ids 0..4094) and one pod " +
 	"requesting 1-4 IPs through request_ip_range (or none): (a) the REAL galaxy-ipam Filter/Bind path (crdIpam + schedulerplugin over the simulated API server) allocates and writes the " +
 	"k8s.v1.cni.galaxy.io/args annotation, (b) the REAL galaxy daemon passes it through its request handler and argument builder to a fake plugin that decodes CNI_ARGS with the plugins' own " +
-	"cni/ipam.Allocate, (c) the decoded (address, prefix length, gateway, VLAN) list is compared, in order, with the FloatingIP objects stored for the pod and with the generated pool " +
+	"cni/ipam.Allocate, the pod is on one default network or selects 1-3 networks by annotation (comma list or JSON, with and without interface names), some of whose configurations carry their own ipam section, (c) for EVERY invoked plugin the decoded (address, prefix length, gateway, VLAN) list is compared, in order, with the FloatingIP objects stored for the pod and with the generated pool " +
 	"configuration (the model side is the generated configuration only). Fault dimension: in half of the runs the first attempt's pods/binding calls all fail and the pod is bound by a " +
 	"second attempt, optionally after a restart of galaxy-ipam on a re-ordered configuration (counters c13.bound-at-second-attempt, c13.restart-between-attempts, " +
 	"c13.pools-reordered-at-restart); otherwise one task at a time. The value is the composition of the three real codecs over generated configurations. A run is non-trivial if the pod was bound. distinct_nontrivial = distinct (configuration, request) pairs."
